@@ -259,6 +259,8 @@ struct OpRecord {
     invoke: u64,
     ret: u64,
     out: Outcome,
+    /// the call ran while every slot of the reader table was taken
+    starved: bool,
 }
 
 fn bytes_val(b: &[u8]) -> String {
@@ -450,7 +452,10 @@ impl<'a> Search<'a> {
         for r in cands {
             let rec = &self.recs[r];
             let mut m2 = m.clone();
-            if model_step(&mut m2, &rec.op, &rec.out, self.enc) {
+            // a store that ran with the reader table exhausted may fail with the engine's error:
+            // then it is a call without effect
+            let starved_failure = rec.starved && matches!(&rec.out, Outcome::Store(StoreOutcome::Other(_)));
+            if starved_failure || model_step(&mut m2, &rec.op, &rec.out, self.enc) {
                 next[rec.thread] += 1;
                 let res = self.dfs(next, &m2, hint, depth + 1);
                 next[rec.thread] -= 1;
@@ -470,6 +475,8 @@ impl<'a> Search<'a> {
 }
 
 // ------------------------------------------------------------------ generation
+
+const T0_CONC: u64 = crate::gen::T0 + 50;
 
 /// `focus`: which property's check asks (biases the scenario choice)
 pub fn generate(rs: u64, focus: &str) -> Trace {
@@ -491,16 +498,16 @@ pub fn generate(rs: u64, focus: &str) -> Trace {
     let nthreads = if crate::gen::thorough() { 2 + g.rng.weighted(&[35, 35, 30]) } else { 2 + g.rng.weighted(&[55, 30, 15]) };
     let mut threads: Vec<Vec<Op>> = vec![vec![]; nthreads];
     let scenario = match focus {
-        "C04" => g.rng.weighted(&[5, 5, 0, 10, 0, 10, 70, 0, 0, 0, 0, 0]),
-        "C15" => g.rng.weighted(&[5, 5, 5, 10, 0, 30, 35, 10, 0, 0, 0, 0]),
-        "C18" => g.rng.weighted(&[0, 0, 0, 0, 25, 10, 0, 0, 35, 0, 30, 0]),
-        "C09" => g.rng.weighted(&[5, 75, 0, 5, 0, 15, 0, 0, 0, 0, 0, 0]),
-        "C10" => g.rng.weighted(&[0, 0, 10, 0, 0, 20, 0, 70, 0, 0, 0, 0]),
-        "C11" => g.rng.weighted(&[0, 5, 60, 0, 0, 20, 0, 15, 0, 0, 0, 0]),
-        "C05" => g.rng.weighted(&[0, 30, 0, 30, 20, 20, 0, 0, 0, 0, 0, 0]),
-        "C12" => g.rng.weighted(&[15, 5, 0, 0, 0, 10, 0, 10, 0, 0, 0, 60]),
-        "C17" => g.rng.weighted(&[0, 10, 0, 0, 10, 15, 0, 0, 10, 45, 10, 0]),
-        _ => g.rng.weighted(&[14, 14, 10, 14, 8, 12, 8, 7, 6, 4, 3, 4]),
+        "C04" => g.rng.weighted(&[5, 5, 0, 10, 0, 10, 70, 0, 0, 0, 0, 0, 0]),
+        "C15" => g.rng.weighted(&[5, 5, 5, 10, 0, 30, 35, 10, 0, 0, 0, 0, 0]),
+        "C18" => g.rng.weighted(&[0, 0, 0, 0, 25, 10, 0, 0, 35, 0, 30, 0, 0]),
+        "C09" => g.rng.weighted(&[5, 75, 0, 5, 0, 15, 0, 0, 0, 0, 0, 0, 0]),
+        "C10" => g.rng.weighted(&[0, 0, 10, 0, 0, 20, 0, 70, 0, 0, 0, 0, 0]),
+        "C11" => g.rng.weighted(&[0, 5, 60, 0, 0, 20, 0, 15, 0, 0, 0, 0, 0]),
+        "C05" => g.rng.weighted(&[0, 30, 0, 30, 20, 20, 0, 0, 0, 0, 0, 0, 0]),
+        "C12" => g.rng.weighted(&[15, 5, 0, 0, 0, 10, 0, 10, 0, 0, 0, 60, 0]),
+        "C17" => g.rng.weighted(&[0, 10, 0, 0, 10, 15, 0, 0, 10, 45, 10, 0, 0]),
+        _ => g.rng.weighted(&[14, 14, 10, 14, 8, 12, 8, 7, 6, 4, 3, 4, 3]),
     };
     let known: Vec<EvSpec> = g.model.events.values().cloned().collect();
     let retr: Vec<B32> = g.model.retrievable.iter().copied().collect();
@@ -781,6 +788,30 @@ pub fn generate(rs: u64, focus: &str) -> Trace {
                 *t = v;
             }
         }
+        12 => {
+            // a deletion request stored while every reader slot is taken (the engine refuses its
+            // lookups: the call fails without effect, or succeeds; either way nobody else is
+            // held up), plain stores by the others, then the request once more without the fault
+            let victim = known.iter().find(|e| g.model.retrievable.contains(&e.id)).cloned();
+            let pk = victim.as_ref().map(|v| v.pk).unwrap_or(g.authors[0]);
+            let mut tags: Vec<Vec<String>> = vec![];
+            if let Some(v) = &victim {
+                tags.push(vec!["e".into(), hex(&v.id)]);
+            }
+            tags.push(vec!["e".into(), hex(&g.rng.bytes32())]);
+            let at = victim.as_ref().map(|v| v.at.saturating_add(1)).unwrap_or(T0_CONC);
+            let del = EvSpec { id: g.rng.bytes32(), pk, kind: 5, at, tags, content: vec![] };
+            threads[0].push(Op::Starve);
+            threads[0].push(Op::Store(del.clone()));
+            threads[0].push(Op::Store(del));
+            for t in 1..nthreads {
+                for _ in 0..(1 + g.rng.usize(2)) {
+                    let mut e = g.new_event();
+                    e.kind = 1;
+                    threads[t].push(Op::Store(e));
+                }
+            }
+        }
         8 => {
             // one event stored, removed and stored again by different threads
             let e = if g.rng.chance(1, 2) { g.new_event() } else { g.new_version() };
@@ -1041,7 +1072,12 @@ pub fn run_conc_full(trace: &Trace, scratch: PathBuf, verbose: bool, known_open:
             let base_offsets = &base_offsets;
             let _ = scope.spawn(move || {
                 TID.with(|c| c.set(Some(t)));
+                let mut starve_next = false;
                 for (i, op) in ops.iter().enumerate() {
+                    if matches!(op, Op::Starve) {
+                        starve_next = true;
+                        continue;
+                    }
                     {
                         let mut g = ctl.m.lock().unwrap();
                         g.cur_op[t] = i;
@@ -1060,7 +1096,25 @@ pub fn run_conc_full(trace: &Trace, scratch: PathBuf, verbose: bool, known_open:
                         }
                         continue;
                     }
+                    let starved = std::mem::take(&mut starve_next);
+                    let readers = if starved {
+                        // take every reader slot (outside the schedule: these are not steps of the
+                        // operation under test)
+                        TID.with(|c| c.set(None));
+                        let mut held = vec![];
+                        while held.len() < 4096 {
+                            match store.read_txn() {
+                                Ok(x) => held.push(x),
+                                Err(_) => break,
+                            }
+                        }
+                        TID.with(|c| c.set(Some(t)));
+                        held
+                    } else {
+                        vec![]
+                    };
                     let out = exec_op(store, op, enc);
+                    drop(readers);
                     ctl.release_writer_if_held(t);
                     if let (Op::Store(e), Outcome::Store(StoreOutcome::Ok(off))) = (op, &out) {
                         // hold a reference to what was just stored (C15)
@@ -1070,7 +1124,7 @@ pub fn run_conc_full(trace: &Trace, scratch: PathBuf, verbose: bool, known_open:
                         }
                     }
                     let ret = ctl.step();
-                    records.lock().unwrap().push(OpRecord { thread: t, idx: i, op: op.clone(), invoke, ret, out });
+                    records.lock().unwrap().push(OpRecord { thread: t, idx: i, op: op.clone(), invoke, ret, out, starved });
                 }
                 TID.with(|c| c.set(None));
                 ctl.done(t);
@@ -1401,6 +1455,7 @@ pub fn run_conc_full(trace: &Trace, scratch: PathBuf, verbose: bool, known_open:
                 Outcome::Has(Err(e)) | Outcome::Get(Err(e)) | Outcome::Removed(Err(e)) | Outcome::Vanished(Err(e)) | Outcome::Stats(Err(e)) | Outcome::Synced(Err(e)) => Some(e.clone()),
                 Outcome::Query(QueryOutcomeC::OtherErr(e)) | Outcome::Query(QueryOutcomeC::Panic(e)) => Some(e.clone()),
                 Outcome::Store(StoreOutcome::Other(_)) if matches!(&r.op, Op::Store(e) if model.store_expect(e).engine_refusal) => None,
+                Outcome::Store(StoreOutcome::Other(_)) if r.starved => None,
                 Outcome::Store(StoreOutcome::Panic(p)) | Outcome::Store(StoreOutcome::Other(p)) => Some(p.clone()),
                 _ => None,
             };
